@@ -1,6 +1,8 @@
 package props
 
 import (
+	"golibcheck/internal/paths"
+	"go/constant"
 	"fmt"
 	"math"
 	"go/ast"
@@ -275,6 +277,7 @@ func runC05(p *core.Program, r *core.Report) {
 	r.Rule("C05.countlink", "repetitions are driven by the count the reference expects", 9)
 	r.Rule("C05.frame", "makeData: Short(type)+body, then WriteHeader(10,0,pcode,Hash64Str(license in effect)) from a fresh option struct; WriteHeader = Byte Byte Long Long IntBytes(prev)", 6)
 	r.Rule("C05.encodings", "variable-length decimal classes (tag k + k big-endian bytes, shortest class) and blob/text length classes (<=253 / 255+u16 / 254+i32) are the protocol's", 20)
+	r.Rule("C05.taghash", "a log-sink pack that changes its own tag map invalidates the cached tag hash on every path that changed it (the hash written in front of the tags is the hash of those tags)", 1)
 	r.Rule("C05.crc", "Hash64 is the table-driven CRC variant: init all-ones, step (acc>>8)^sext32(T[(acc^b)&0xff]), final complement; table = IEEE CRC-32", 259)
 
 	var pairs []codecPair
@@ -304,6 +307,7 @@ func runC05(p *core.Program, r *core.Report) {
 	runPairs(p, x, r, pairs, pairRules{"C05.bodies", "C05.fields", "C05.countlink"}, 6)
 
 	c05Frame(p, r, "C05.frame", false)
+	c05TagHash(p, r)
 	// the variable-length encodings the bodies are made of (same rules as C01, reported under C05:
 	// a changed length class changes the bytes of every pack that carries such a field)
 	c01Decimal(p, r, &bits.Interp{P: p}, "C05.encodings")
@@ -560,6 +564,99 @@ func c05Frame(p *core.Program, r *core.Report, rule string, optsOnly bool) {
 	r.Check(seen[false] && hdrBad[false] == "", rule, "net/oneway.makeData header(client license)", pos, "WriteHeader(10, 0, pack's pcode, Hash64Str(client License)) otherwise", orStr(hdrBad[false], "no path for an empty per-send license"))
 	r.Check(seen[true] && seen[false] && hdrBad[true] == "" && hdrBad[false] == "", rule, "net/oneway.makeData license selection", pos,
 		"per-send license when non-empty, else the client's", "the license hashed into the header is not selected as: per-send override if non-empty, otherwise the client's current License")
+}
+
+// c05TagHash: LogSinkPack caches the hash of its tag map (TagHash, recomputed by Write only when it
+// is 0). Every method of the pack that puts into / removes from Tags must reset TagHash (or recompute
+// it) after the last such change on every feasible path; flags set on the way (changed = true) are
+// tracked, so `if changed { TagHash = 0 }` is fine exactly when every changing branch sets the flag.
+func c05TagHash(p *core.Program, r *core.Report) {
+	t := namedIn(p, "lang/pack", "LogSinkPack")
+	if t == nil {
+		r.Undec("C05.taghash", "lang/pack.LogSinkPack", "-", "type not found")
+		return
+	}
+	n := 0
+	for _, fi := range p.MethodsOf(t) {
+		if fi.Decl.Body == nil || fi.Obj.Name() == "Read" || fi.Obj.Name() == "ResetTagHash" {
+			continue
+		}
+		info := fi.Pkg.TypesInfo
+		rn := recvName(fi)
+		norm := func(e ast.Expr) string { return strings.ReplaceAll(stripSpaces(types.ExprString(e)), rn+".", "") }
+		mut := false
+		ps, over := paths.Enumerate(fi.Decl.Body, paths.Config{Info: info,
+			Cond: func(c ast.Expr, v bool) *paths.Event {
+				return &paths.Event{Kind: "COND", Arg: condKey(info, norm, c, v), Pos: c.Pos()}
+			},
+			Classify: func(m ast.Node) []paths.Event {
+				var out []paths.Event
+				if as, ok := m.(*ast.AssignStmt); ok && len(as.Lhs) == len(as.Rhs) {
+					for i, l := range as.Lhs {
+						if norm(l) == "TagHash" {
+							out = append(out, paths.Event{Kind: "HASHRESET", Pos: as.Pos()})
+						}
+						if id, ok := l.(*ast.Ident); ok {
+							if tv, ok := info.Types[as.Rhs[i]]; ok && tv.Value != nil && tv.Value.Kind() == constant.Bool {
+								out = append(out, paths.Event{Kind: "FLAG", Arg: fmt.Sprintf("%s=%v", id.Name, constant.BoolVal(tv.Value)), Pos: as.Pos()})
+							}
+						}
+					}
+				}
+				ast.Inspect(m, func(k ast.Node) bool {
+					call, ok := k.(*ast.CallExpr)
+					if !ok {
+						return true
+					}
+					sel, ok := call.Fun.(*ast.SelectorExpr)
+					if !ok {
+						return true
+					}
+					if norm(sel.X) == "Tags" && (strings.HasPrefix(sel.Sel.Name, "Put") || strings.HasPrefix(sel.Sel.Name, "Remove") || sel.Sel.Name == "Clear") {
+						mut = true
+						out = append(out, paths.Event{Kind: "TAGPUT", Arg: sel.Sel.Name, Pos: call.Pos()})
+					}
+					if sel.Sel.Name == "ResetTagHash" {
+						out = append(out, paths.Event{Kind: "HASHRESET", Pos: call.Pos()})
+					}
+					return true
+				})
+				return out
+			}})
+		if !mut {
+			continue
+		}
+		n++
+		c := core.FuncName(fi.Obj)
+		pos := p.Pos(fi.Decl.Pos())
+		if over {
+			r.Undec("C05.taghash", c, pos, "too many paths")
+			continue
+		}
+		bad := ""
+		for _, pa := range ps {
+			if !pa.Consistent() {
+				continue
+			}
+			li := pa.LastIndex("TAGPUT")
+			if li < 0 {
+				continue
+			}
+			reset := false
+			for _, e := range pa[li+1:] {
+				if e.Kind == "HASHRESET" {
+					reset = true
+				}
+			}
+			if !reset && bad == "" {
+				bad = "the tag map is changed (" + pa[li].Arg + ") on a path that leaves the cached TagHash as it was: the next Write emits the old hash in front of the new tags: " + pa.String()
+			}
+		}
+		r.Check(bad == "", "C05.taghash", c, pos, "TagHash reset after the last change of Tags on every path", bad)
+	}
+	if n == 0 {
+		r.Undec("C05.taghash", "lang/pack.LogSinkPack", "-", "no method changes the tag map")
+	}
 }
 
 func orStr(a, b string) string {
